@@ -1,12 +1,475 @@
-//! Family `pack`: C15 — GameCube/Wii pack archive.  (stub)
-#![allow(unused)]
+//! Family `pack`: C15 — GameCube/Wii pack archive (`fe9_arc`).
+//!
+//! Case lines
+//!   `<id> build <n> (<name-hex> <body-hex>)*`            serialize the ordered map, parse the image back
+//!   `<id> parse <img-hex> <n> (<name-hex> <body-hex>)*`  spec-built (foreign) image of the listed files
+//!   `<id> parse <img-hex> ~`                             malformed image (only ok/err/panic matters)
+//! Implementation lines
+//!   build: `ok <img-hex> <n> (<name> <body>)*` | `ok <img-hex> err` | `err` | `panic`
+//!   parse: `ok <n> (<name> <body>)*` | `ok ?` (some name outside the sub-codec alphabet) | `err` | `panic`
+//! Error classes are not distinguished (the property does not name any).
 use crate::util::*;
+use indexmap::IndexMap;
+use mila::fe9_arc;
 
-pub fn gen(_seed: u64, _tier: &str) -> Vec<String> {
-    Vec::new()
+// ---------------------------------------------------------------------------------------------
+// reference Shift-JIS encoder for the `sjisSub` alphabet (independent of mila / encoding_rs)
+// ---------------------------------------------------------------------------------------------
+
+pub fn sjis_sub_char(ch: char) -> Option<Vec<u8>> {
+    let cp = ch as u32;
+    if cp < 0x80 {
+        Some(vec![cp as u8])
+    } else if (0xFF61..=0xFF9F).contains(&cp) {
+        Some(vec![(cp - 0xFF61 + 0xA1) as u8])
+    } else if (0x3041..=0x3093).contains(&cp) {
+        Some(vec![0x82, (0x9F + (cp - 0x3041)) as u8])
+    } else if (0x30A1..=0x30DF).contains(&cp) {
+        Some(vec![0x83, (0x40 + (cp - 0x30A1)) as u8])
+    } else if (0x30E0..=0x30F6).contains(&cp) {
+        Some(vec![0x83, (0x80 + (cp - 0x30E0)) as u8])
+    } else {
+        None
+    }
+}
+
+pub fn sjis_sub(s: &str) -> Vec<u8> {
+    let mut out = Vec::new();
+    for ch in s.chars() {
+        out.extend(sjis_sub_char(ch).expect("name outside the sjisSub alphabet"));
+    }
+    out
+}
+
+/// A random character of the sub-codec alphabet (never NUL).
+pub fn sub_char(rng: &mut Rng) -> char {
+    match rng.below(10) {
+        0..=5 => {
+            // printable ASCII mostly, sometimes any non-NUL ASCII (incl. 0x5C, 0x7E, 0x7F, controls)
+            if rng.chance(1, 8) {
+                char::from_u32(rng.range(1, 0x7F) as u32).unwrap()
+            } else {
+                char::from_u32(rng.range(0x20, 0x7E) as u32).unwrap()
+            }
+        }
+        6 => char::from_u32(rng.range(0xFF61, 0xFF9F) as u32).unwrap(),
+        7 => char::from_u32(rng.range(0x3041, 0x3093) as u32).unwrap(),
+        _ => char::from_u32(rng.range(0x30A1, 0x30F6) as u32).unwrap(),
+    }
+}
+
+pub fn sub_name(rng: &mut Rng, max_len: u64) -> String {
+    let n = if rng.chance(1, 25) { 0 } else { rng.range(1, max_len) };
+    (0..n).map(|_| sub_char(rng)).collect()
+}
+
+/// `n` pairwise distinct names.
+pub fn distinct_names(rng: &mut Rng, n: usize) -> Vec<String> {
+    let mut names: Vec<String> = Vec::new();
+    while names.len() < n {
+        let max_len = if n > 30 { 14 } else { 10 };
+        let s = if rng.chance(1, 6) {
+            // look-alikes: share a prefix with an earlier name
+            match names.last() {
+                Some(p) => format!("{}{}", p, sub_char(rng)),
+                None => sub_name(rng, max_len),
+            }
+        } else {
+            sub_name(rng, max_len)
+        };
+        if !names.contains(&s) {
+            names.push(s);
+        }
+    }
+    names
+}
+
+/// File length: around multiples of 32 most of the time.
+fn body_len(rng: &mut Rng) -> usize {
+    match rng.below(10) {
+        0 => 0,
+        1..=6 => {
+            let k = rng.range(0, 4) as i64 * 32;
+            let d = rng.range(0, 4) as i64 - 2;
+            (k + d).max(0) as usize
+        }
+        7 => rng.range(1, 8) as usize,
+        _ => rng.range(0, 150) as usize,
+    }
+}
+
+fn body(rng: &mut Rng, n: usize) -> Vec<u8> {
+    match rng.below(4) {
+        0 => vec![0u8; n],                     // indistinguishable from padding
+        1 => vec![rng.next() as u8; n],
+        _ => rng.bytes(n),
+    }
+}
+
+fn fmt_files(files: &[(String, Vec<u8>)]) -> String {
+    let mut s = format!("{}", files.len());
+    for (k, v) in files {
+        s.push(' ');
+        s.push_str(&hexs(k));
+        s.push(' ');
+        s.push_str(&hex(v));
+    }
+    s
+}
+
+fn fmt_map(m: &IndexMap<String, Vec<u8>>) -> String {
+    let v: Vec<(String, Vec<u8>)> = m.iter().map(|(k, v)| (k.clone(), v.clone())).collect();
+    fmt_files(&v)
+}
+
+// ---------------------------------------------------------------------------------------------
+// spec-side image builder (written from Spec.PackImage, not from fe9_arc::serialize)
+// ---------------------------------------------------------------------------------------------
+
+#[derive(Clone, Copy, PartialEq)]
+enum Layout {
+    NamesThenBodies, // like the library, but unpadded
+    BodiesThenNames,
+    Reversed,        // blobs placed in reverse entry order
+    Shuffled,        // names and bodies interleaved at random, random gaps
+    Shared,          // equal bodies stored once; a body may also live inside another body
+}
+
+fn be32(v: usize) -> [u8; 4] {
+    (v as u32).to_be_bytes()
+}
+
+/// Builds a conforming image for `files`. Every blob (encoded name + NUL, or body) is placed at
+/// some offset after the table; the table then points at those offsets.
+fn build_foreign(rng: &mut Rng, files: &[(String, Vec<u8>)], layout: Layout) -> Vec<u8> {
+    let n = files.len();
+    let table_end = 8 + 16 * n;
+    // blobs: (is_name, entry index, bytes)
+    let mut blobs: Vec<(bool, usize, Vec<u8>)> = Vec::new();
+    for (i, (k, v)) in files.iter().enumerate() {
+        let mut nb = sjis_sub(k);
+        nb.push(0);
+        blobs.push((true, i, nb));
+        blobs.push((false, i, v.clone()));
+    }
+    match layout {
+        Layout::NamesThenBodies => blobs.sort_by_key(|b| (!b.0, b.1)),
+        Layout::BodiesThenNames => blobs.sort_by_key(|b| (b.0, b.1)),
+        Layout::Reversed => blobs.sort_by_key(|b| (!b.0, n - b.1)),
+        Layout::Shuffled | Layout::Shared => rng.shuffle(&mut blobs),
+    }
+    let gaps = matches!(layout, Layout::Shuffled | Layout::Shared);
+    let mut tail: Vec<u8> = Vec::new();
+    let mut name_addr = vec![0usize; n];
+    let mut file_addr = vec![0usize; n];
+    for (is_name, i, bytes) in &blobs {
+        if gaps && rng.chance(1, 3) {
+            let g = rng.range(1, 9) as usize;
+            tail.extend(rng.bytes(g)); // garbage gap
+        }
+        let mut addr = table_end + tail.len();
+        let mut placed = false;
+        if layout == Layout::Shared && !*is_name && !bytes.is_empty() {
+            // reuse an occurrence that already exists in the tail (shared / nested bodies)
+            if let Some(p) = tail.windows(bytes.len()).position(|w| w == &bytes[..]) {
+                addr = table_end + p;
+                placed = true;
+            }
+        }
+        if layout == Layout::Shared && !*is_name && bytes.is_empty() && rng.chance(1, 2) {
+            // an empty body may sit anywhere inside the image, e.g. inside the header
+            addr = rng.below((table_end + tail.len()) as u64 + 1) as usize;
+            placed = true;
+        }
+        if !placed {
+            tail.extend(bytes);
+        }
+        if *is_name {
+            name_addr[*i] = addr;
+        } else {
+            file_addr[*i] = addr;
+        }
+    }
+    if gaps && rng.chance(1, 2) {
+        let g = rng.range(1, 40) as usize;
+        tail.extend(rng.bytes(g));
+    }
+    let mut img: Vec<u8> = Vec::new();
+    img.extend(0x7061636Bu32.to_be_bytes());
+    img.extend((n as u16).to_be_bytes());
+    if gaps {
+        img.extend(rng.bytes(2));
+    } else {
+        img.extend([0, 0]);
+    }
+    for i in 0..n {
+        if gaps {
+            img.extend(rng.bytes(4)); // the ignored word
+        } else {
+            img.extend([0, 0, 0, 0]);
+        }
+        img.extend(be32(name_addr[i]));
+        img.extend(be32(file_addr[i]));
+        img.extend(be32(files[i].1.len()));
+    }
+    img.extend(tail);
+    img
+}
+
+fn random_files(rng: &mut Rng, n: usize) -> Vec<(String, Vec<u8>)> {
+    let names = distinct_names(rng, n);
+    let share = rng.chance(1, 4);
+    let mut files: Vec<(String, Vec<u8>)> = Vec::new();
+    for name in names {
+        let b = if share && !files.is_empty() && rng.chance(1, 2) {
+            // equal or nested content
+            let src = files[rng.below(files.len() as u64) as usize].1.clone();
+            if src.len() > 2 && rng.chance(1, 2) {
+                let a = rng.below(src.len() as u64 / 2) as usize;
+                src[a..src.len() - 1].to_vec()
+            } else {
+                src
+            }
+        } else {
+            let l = body_len(rng);
+            body(rng, l)
+        };
+        files.push((name, b));
+    }
+    files
+}
+
+// ---------------------------------------------------------------------------------------------
+// generator
+// ---------------------------------------------------------------------------------------------
+
+pub fn gen(seed: u64, tier: &str) -> Vec<String> {
+    let mut rng = Rng::new(seed ^ 0xC15);
+    let thorough = tier == "thorough";
+    let mut lines: Vec<String> = Vec::new();
+    let mut n = 0usize;
+    let mut push = |lines: &mut Vec<String>, rest: String| {
+        lines.push(format!("c15.{:06} {}", n, rest));
+        n += 1;
+    };
+
+    // 1. bounded-exhaustive small scope: every ordered map of <= 2 files, names {a, b}, lengths
+    //    {0, 1, 31, 32, 33}; plus every single file with a length 0..=66
+    push(&mut lines, "build 0".to_string());
+    let lens = [0usize, 1, 31, 32, 33];
+    for (ai, a) in ["a", "b"].iter().enumerate() {
+        for la in lens {
+            let fa = (a.to_string(), rng.bytes(la));
+            push(&mut lines, format!("build {}", fmt_files(&[fa.clone()])));
+            for (bi, b) in ["a", "b"].iter().enumerate() {
+                if ai == bi {
+                    continue;
+                }
+                for lb in lens {
+                    let fb = (b.to_string(), rng.bytes(lb));
+                    push(&mut lines, format!("build {}", fmt_files(&[fa.clone(), fb])));
+                }
+            }
+        }
+    }
+    for l in 0..=66usize {
+        // name lengths sweep the padding of the name table as well
+        let name: String = (0..(l % 35)).map(|i| (b'a' + (i % 26) as u8) as char).collect();
+        push(&mut lines, format!("build {}", fmt_files(&[(name, rng.bytes(l))])));
+    }
+
+    // 2. random ordered maps of 0..40 files
+    let builds = if thorough { 6000 } else { 260 };
+    for _ in 0..builds {
+        let k = match rng.below(8) {
+            0 => rng.range(0, 2),
+            1 => rng.range(30, 40),
+            _ => rng.range(0, 40),
+        } as usize;
+        let files = random_files(&mut rng, k);
+        push(&mut lines, format!("build {}", fmt_files(&files)));
+    }
+    {
+        // many files: header and name table far larger than one padding block; more than 255
+        // files (count needs both header bytes)
+        let ks: &[usize] = if thorough { &[257, 1200] } else { &[257] };
+        for &k in ks {
+            let files: Vec<(String, Vec<u8>)> = (0..k)
+                .map(|i| (format!("f{:x}", i), rng.bytes((i * 7) % 40)))
+                .collect();
+            push(&mut lines, format!("build {}", fmt_files(&files)));
+        }
+    }
+
+    // 3. foreign (spec-built) conforming images
+    let foreign = if thorough { 5000 } else { 260 };
+    let layouts = [
+        Layout::NamesThenBodies,
+        Layout::BodiesThenNames,
+        Layout::Reversed,
+        Layout::Shuffled,
+        Layout::Shared,
+    ];
+    for j in 0..foreign {
+        let k = match rng.below(6) {
+            0 => rng.range(0, 1),
+            _ => rng.range(0, 24),
+        } as usize;
+        let mut files = random_files(&mut rng, k);
+        let layout = layouts[j % layouts.len()];
+        // now and then a duplicated name: outside the property's quantifier, but model and code
+        // must still agree (IndexMap::insert replaces in place)
+        if k >= 2 && rng.chance(1, 15) {
+            let a = rng.below(k as u64) as usize;
+            let b = rng.below(k as u64) as usize;
+            if a != b {
+                files[b].0 = files[a].0.clone();
+            }
+        }
+        let img = build_foreign(&mut rng, &files, layout);
+        push(&mut lines, format!("parse {} {}", hex(&img), fmt_files(&files)));
+    }
+
+    // 4. malformed stream
+    let malformed = if thorough { 4000 } else { 300 };
+    for j in 0..malformed {
+        let k = rng.range(0, 6) as usize;
+        let files = random_files(&mut rng, k);
+        let mut img = if rng.chance(1, 2) {
+            let m: IndexMap<String, Vec<u8>> = files.iter().cloned().collect();
+            fe9_arc::serialize(&m).unwrap()
+        } else {
+            build_foreign(&mut rng, &files, Layout::Shuffled)
+        };
+        match j % 10 {
+            0 => {
+                // wrong magic (one byte / all bytes)
+                if rng.chance(1, 2) {
+                    let p = rng.below(4) as usize;
+                    img[p] ^= 1 << rng.below(8);
+                } else {
+                    for p in 0..4 {
+                        img[p] = rng.next() as u8;
+                    }
+                    if img[0..4] == [0x70, 0x61, 0x63, 0x6B] {
+                        img[0] = 0;
+                    }
+                }
+            }
+            1 => {
+                // truncation at a field boundary of the header / table
+                let bounds: Vec<usize> = (0..=8 + 16 * k).filter(|x| *x <= 8 || (x - 8) % 4 == 0).collect();
+                let cut = *rng.pick(&bounds);
+                img.truncate(cut.min(img.len()));
+            }
+            2 => {
+                // truncation anywhere
+                let cut = rng.below(img.len() as u64 + 1) as usize;
+                img.truncate(cut);
+            }
+            3 if k > 0 => {
+                // over-declared size
+                let i = rng.below(k as u64) as usize;
+                let v: u32 = *rng.pick(&[0xFFFF_FFFFu32, 0x8000_0000, img.len() as u32, img.len() as u32 + 1, 0x7FFF_FFFF]);
+                img[8 + 16 * i + 12..8 + 16 * i + 16].copy_from_slice(&v.to_be_bytes());
+            }
+            4 => {
+                // over-declared count
+                let v: u16 = *rng.pick(&[k as u16 + 1, 0xFFFF, 0x8000, k as u16 + 2]);
+                img[4..6].copy_from_slice(&v.to_be_bytes());
+            }
+            5 if k > 0 => {
+                // file address at / beyond the end
+                let i = rng.below(k as u64) as usize;
+                let v: u32 = *rng.pick(&[img.len() as u32, img.len() as u32 + 1, 0xFFFF_FFFF, img.len() as u32 - 1]);
+                img[8 + 16 * i + 8..8 + 16 * i + 12].copy_from_slice(&v.to_be_bytes());
+            }
+            6 if k > 0 => {
+                // name address at / beyond the end, or name without terminator
+                let i = rng.below(k as u64) as usize;
+                if rng.chance(1, 2) {
+                    let v: u32 = *rng.pick(&[img.len() as u32, img.len() as u32 + 1, 0xFFFF_FFFF]);
+                    img[8 + 16 * i + 4..8 + 16 * i + 8].copy_from_slice(&v.to_be_bytes());
+                } else {
+                    let at = img.len() as u32;
+                    img.extend(b"open");
+                    img[8 + 16 * i + 4..8 + 16 * i + 8].copy_from_slice(&at.to_be_bytes());
+                }
+            }
+            7 => {
+                // under-declared count: a shorter, still well-formed archive (ok, fewer files)
+                if k > 0 {
+                    let v = rng.below(k as u64) as u16;
+                    img[4..6].copy_from_slice(&v.to_be_bytes());
+                }
+            }
+            8 => {
+                // random bytes, short
+                let l = rng.range(0, 12) as usize;
+                img = rng.bytes(l);
+                if rng.chance(1, 2) && l >= 4 {
+                    img[0..4].copy_from_slice(&[0x70, 0x61, 0x63, 0x6B]);
+                }
+            }
+            _ => {
+                // bit flip anywhere
+                if !img.is_empty() {
+                    let p = rng.below(img.len() as u64) as usize;
+                    img[p] ^= 1 << rng.below(8);
+                }
+            }
+        }
+        push(&mut lines, format!("parse {} ~", hex(&img)));
+    }
+    lines
+}
+
+// ---------------------------------------------------------------------------------------------
+// runner
+// ---------------------------------------------------------------------------------------------
+
+fn parse_files(f: &[&str]) -> Vec<(String, Vec<u8>)> {
+    let n: usize = f[0].parse().unwrap();
+    (0..n).map(|i| (unhexs(f[1 + 2 * i]), unhex(f[2 + 2 * i]))).collect()
 }
 
 pub fn run_line(_st: &mut super::State, line: &str) -> String {
-    let id = line.split(' ').next().unwrap_or("?");
-    format!("{} unimplemented", id)
+    let f: Vec<&str> = line.split(' ').collect();
+    let id = f[0];
+    let out = match f[1] {
+        "build" => {
+            let files = parse_files(&f[2..]);
+            let mut m: IndexMap<String, Vec<u8>> = IndexMap::new();
+            for (k, v) in files {
+                m.insert(k, v);
+            }
+            match no_panic(|| fe9_arc::serialize(&m)) {
+                Err(_) => "panic".to_string(),
+                Ok(Err(_)) => "err".to_string(),
+                Ok(Ok(img)) => match no_panic(|| fe9_arc::parse(&img)) {
+                    Err(_) => format!("ok {} panic", hex(&img)),
+                    Ok(Err(_)) => format!("ok {} err", hex(&img)),
+                    Ok(Ok(back)) => format!("ok {} {}", hex(&img), fmt_map(&back)),
+                },
+            }
+        }
+        "parse" => {
+            let img = unhex(f[2]);
+            match no_panic(|| fe9_arc::parse(&img)) {
+                Err(_) => "panic".to_string(),
+                Ok(Err(_)) => "err".to_string(),
+                // a name outside the sub-codec alphabet (possible only for corrupted images) cannot
+                // be reproduced by the model's sub-codec: such results are compared as `ok ?`
+                Ok(Ok(m)) => {
+                    if m.keys().all(|k| k.chars().all(|c| sjis_sub_char(c).is_some())) {
+                        format!("ok {}", fmt_map(&m))
+                    } else {
+                        "ok ?".to_string()
+                    }
+                }
+            }
+        }
+        _ => "bad-case".to_string(),
+    };
+    format!("{} {}", id, out)
 }
